@@ -50,8 +50,15 @@ pub fn parse_uint(i: &[u8]) -> nom::IResult<&[u8], u64> {
     Ok((i, i.iter().fold(0, |res, &byte| (res << 8) | byte as u64)))
 }
 
+/// Maximum nesting of constructed elements accepted by the parser.
+const MAX_DEPTH: usize = 100;
+
 /// Parse raw BER data into a serializable structure.
 pub fn parse_tag(i: &[u8]) -> nom::IResult<&[u8], StructureTag> {
+    parse_tag_depth(i, 0)
+}
+
+fn parse_tag_depth(i: &[u8], depth: usize) -> nom::IResult<&[u8], StructureTag> {
     let (mut i, ((class, structure, id), len)) = tuple((parse_type_header, parse_length))(i)?;
 
     let pl: PL = match structure {
@@ -65,11 +72,20 @@ pub fn parse_tag(i: &[u8]) -> nom::IResult<&[u8], StructureTag> {
             let (j, mut content) = take(len)(i)?;
             i = j;
 
+            // The parser is recursive: bound the depth so that hostile
+            // input can't exhaust the stack.
+            if depth > MAX_DEPTH {
+                return Err(nom::Err::Error(Error::from_error_kind(
+                    content,
+                    ErrorKind::TooLarge,
+                )));
+            }
+
             let mut tv: Vec<StructureTag> = Vec::new();
             while content.input_len() > 0 {
                 // The content octets are all here, so a nested element which
                 // claims to need more is malformed, not incomplete.
-                let (j, sub) = parse_tag(content).map_err(|e| match e {
+                let (j, sub) = parse_tag_depth(content, depth + 1).map_err(|e| match e {
                     nom::Err::Incomplete(_) => {
                         nom::Err::Error(Error::from_error_kind(content, ErrorKind::Eof))
                     }
